@@ -293,4 +293,4 @@ def replay(ctx, case):
     check_case(ctx, case)
 
 
-SUBS = [Sub("metadata", run, replay, quick=1500, thorough=60000)]
+SUBS = [Sub("metadata", run, replay, quick=1500, thorough=480000)]
